@@ -245,6 +245,8 @@ def _get_input_data(ctx: Ctx, c: Collector) -> None:
                             pr.append(f"pulled value is filed under {T.show(e.term[1][2])[:60]} instead of the source's full id")
                         if not T.contains(e.term[2], ("idx", ("idx", p0.term, se), sa)):
                             pr.append("the pulled value is not cache[src_eid][src_attr]")
+                        elif e.term[2][0] == "phi" and e.term[2][3] != T.NONE and e.term[2][2] != T.NONE:
+                            pr.append("when the source did not produce the attribute, the value is not None: the value of the previous data-flow (another source) is delivered")
                         dest_bind = [b for b in s.of_kind("bind") if b.term[1] == e.term[1][1]]
                         if dest_bind and not (T.contains(dest_bind[0].term[2], de) and T.contains(dest_bind[0].term[2], da) and T.contains(dest_bind[0].term[2], inp)):
                             pr.append("the pulled value is not stored under inputs[dest_eid][dest_attr]")
@@ -357,6 +359,13 @@ def _get_outputs(ctx: Ctx, c: Collector) -> None:
         own = [x for x in guard_terms(e.guards) if T.contains(x, ("attr", sim, "outputs"))]
         if own != [("cmp", "isnot", ("attr", sim, "outputs"), T.NONE)]:
             pr.append("the cache is not filled exactly when caching is on (outputs is not None)")
+    aw = [e for e in s.of_kind("await") if e.term[0] == "call" and e.term[1] == ("attr", sim, "get_data")]
+    if aw:
+        own = [x for x in guard_terms(aw[0].guards) if x != ("cmp", "isnot", ("attr", sim, "current_step"), T.NONE)]
+        if own != [("attr", sim, "output_request")]:
+            pr.append(f"get_data is requested under {[T.show(x)[:40] for x in own]} instead of exactly when some output is connected (sim.output_request)")
+        if aw[0].term[2] != (("attr", sim, "output_request"),):
+            pr.append("get_data does not request sim.output_request")
     dd = [e for e in s.of_kind("store") if e.term[1] == ("attr", sim, "data")]
     if not dd or dd[0].term[2] != data:
         pr.append("sim.data is not updated with the retrieved data (triggers would use stale data)")
@@ -459,7 +468,9 @@ def _floor(ctx: Ctx, c: Collector) -> None:
             el = v[1][0]
             kv = el[3][0][1][1][0]
             keep = T.guard_term(el[2][0])
-            if not (keep[0] == "cmp" and keep[1] == "<=" and keep[3] == kv):
+            if keep[0] == "cmp" and keep[1] == "<" and keep[3] == kv and keep[2][0] == "agg":
+                pr.append("entries with key == floor bound are dropped (> instead of >=): the floor entry itself is pruned")
+            elif not (keep[0] == "cmp" and keep[1] == "<=" and keep[3] == kv):
                 unk = f"keep-predicate {T.show(keep)[:80]} not recognised"
             else:
                 bound = keep[2]
